@@ -382,6 +382,8 @@ def check_sim_first_sample(ctx, cc, c, system, model, groups, x, dt, eng, mode):
                                 "with the map" % (eng, mode, cc["seed"], t, a, b), key="sim:identity-first-sample")
 
 
+RULE = RULE + " " + ("Since seeded round 4 the simulate facet draws the engine (euler, tauleap, gillespie), init_state_processing (default, none, redist, Poisson, auto) and the seed: with any non-default combination the first sample of the coarse-grained run must obey the mode that was asked (none: exactly the aggregated state spread back; redist / Poisson / auto on a stochastic engine: whole molecules per group) and, with the identity map, equal the plain run's first sample for the same seed. Maps whose connected groups share a centroid (distance 0, infinite diffusion constant) are skipped for the stochastic engines.")
+
 FACETS = [
     Facet("coarsegrain", check_cg, strategy=strat_cg, examples=(480, 12000), shards=(16, 16)),
     Facet("inverse", check_inv, strategy=strat_inv, examples=(320, 8000), shards=(8, 16)),
